@@ -240,13 +240,10 @@ def productCols (d mx : MappingMatrix) (ch nin : Nat) : List (List Int) :=
   (subCols mx nin ch).map fun v => matVec (subCols d ch nin) v ch
 
 /-- `OPUS_PROJECTION_GET_DEMIXING_MATRIX` (src/opus_projection_encoder.c:469-507): little-endian
-    int16 cells, `nbIn` columns of `nbOut` rows taken from the top-left of the stored matrix. -/
+    int16 cells, `nbIn` columns of `nbOut` rows taken from the top-left of the stored matrix
+    (`k = rows*i + j`, `i < nbIn`, `j < nbOut`); `.oob` when the largest index lies outside the cells. -/
 def exportDemixing (d : MappingMatrix) (nbIn nbOut : Nat) : Res Bytes :=
-  let idx := (List.range nbIn).flatMap fun i => (List.range nbOut).map fun j => d.rows * i + j
-  idx.foldr (fun k acc =>
-    match d.data[k]?, acc with
-    | some v, .ok bs => let u := (v % 65536).toNat; .ok (u % 256 :: u / 256 :: bs)
-    | none, _ => .oob
-    | _, r => r) (.ok [])
+  if nbIn ≠ 0 ∧ nbOut ≠ 0 ∧ d.data.length < d.rows * (nbIn - 1) + nbOut then .oob
+  else .ok ((subCols d nbOut nbIn).flatten.flatMap fun v => let u := (v % 65536).toNat; [u % 256, u / 256])
 
 end Opus.Matrix
